@@ -114,6 +114,9 @@ class StdLib:
         if canon.startswith("std::shared_ptr<") or canon.startswith("std::__shared_ptr<"):
             t = parse_type(targs(canon)[0])
             return [("p", Ty("ptr", to=t)), ("c", Ty("ptr", to=Ty("rec", name="verif_ctrl")))]
+        if re.match(r"std::(__cxx11::)?basic_stringstream<char", canon) and self.tr.opts.get("bounded_str"):
+            strc = "std::basic_string<char>"
+            return [("buf", Ty("rec", name=strc)), ("pos", parse_type("unsigned long")), ("fail", parse_type("bool"))]
         if canon.startswith("std::vector<") and self.tr.opts.get("bounded_vec"):
             return [("b", Ty("arr", to=parse_type(targs(canon)[0]), n=int(self.tr.opts["bounded_vec"]))), ("n", parse_type("unsigned long")), ("cap", parse_type("unsigned long"))]
         if self.is_string(canon) and self.tr.opts.get("bounded_str"):
@@ -263,6 +266,7 @@ static inline void %(s)s_push_back_move(%(s)s *v, %(T)s *x) { __CPROVER_assert(v
 static %(T)s *%(s)s_elem(%(s)s *v, unsigned long i) { unsigned long k; __CPROVER_assert(i < %(CAP)d, "vector index inside the bounded model's storage"); for (k = 0; k + 1 < %(CAP)d; k++) if (k == i) return &v->b[k]; return &v->b[%(CAP)d - 1]; }
 static inline %(T)s *%(s)s_at(%(s)s *v, unsigned long i) { if (i >= v->n) { __verif_exc = %(OOR)s; return &v->b[0]; } return %(s)s_elem(v, i); }
 static inline void %(s)s_resize(%(s)s *v, unsigned long n) { __CPROVER_assert(n <= v->n, "BOUND growing resize is not modelled for the bounded vector"); v->n = n; }
+static inline void %(s)s_pop_back(%(s)s *v) { unsigned long k = v->n - 1; __CPROVER_assert(v->n > 0, "pop_back on a non-empty vector"); for (k = 0; k < %(CAP)d; k++) if (k + 1 == v->n) { %(EL_DROP)s } v->n--; }
 /* erase [first, last): the later elements move down in order (elements are copied by value) */
 static %(T)s *%(s)s_erase_range(%(s)s *v, %(T)s *first, %(T)s *last)
 {
@@ -396,6 +400,18 @@ static inline void %(s)s_dtor(%(s)s *v) { if (v->b) free(v->b); v->b = 0; v->n =
         tr = self.tr
         q = info.get("qname", "")
         ety = tr.ety(ce)
+        if re.match(r"std::(__cxx11::)?basic_stringstream<char", q) and tr.opts.get("bounded_str"):
+            tr.need_record(ety.name)
+            real = [a for a in args if a.get("kind") != "CXXDefaultArgExpr"]
+            tr.rule("std::stringstream model")
+            tr.assume("std::stringstream", "bounded model {buffer string, read position, fail flag}; only construction from a string, getline and the boolean test are modelled")
+            o = deref(ptr)
+            st = [X("expr", X("assign", "=", X("mem", o, "pos"), X("lit", "0ul"))), X("expr", X("assign", "=", X("mem", o, "fail"), X("lit", "0")))]
+            if real:
+                st.append(X("expr", X("assign", "=", X("mem", o, "buf"), tr.lv(real[0]) if tr.is_glvalue(real[0]) else tr.rv(real[0]))))
+            else:
+                st.append(X("expr", X("assign", "=", X("mem", X("mem", o, "buf"), "n"), X("lit", "0ul"))))
+            return st
         if q.startswith("__gnu_cxx::__normal_iterator<") and len(args) == 1:
             # iterator copy / iterator -> const_iterator conversion: iterators are pointers
             tr.rule("iterator-as-pointer")
@@ -587,6 +603,8 @@ static inline void verif_lock_guard_dtor(std_lock_guard_std_mutex *g) { g->m->g_
                 return "verif_lock_guard_dtor"
             if ty.name.startswith("std::function<"):
                 return ""
+            if re.match(r"std::(__cxx11::)?basic_stringstream<char", ty.name) and tr.opts.get("bounded_str"):
+                return ""
             if ty.name.startswith("std::pair<"):
                 # members: scalars, or strings of the bounded inline model (whose destructor is a no-op)
                 for a in targs(ty.name):
@@ -628,6 +646,11 @@ static inline void verif_lock_guard_dtor(std_lock_guard_std_mutex *g) { g->m->g_
                 if rt.kind == "ref":
                     return deref(X("sexpr", st, addr(v), ty=Ty("ptr", to=rt.to)))
                 return X("sexpr", st, v, ty=rt)
+        if q.startswith("std::basic_ios<char") and q.endswith("operator bool") and obj is not None and tr.opts.get("bounded_str"):
+            # boolean test of a stream (the bounded string-stream model, possibly reached through getline's result)
+            o = tr.lv(self.strip_base_casts(obj[0]))
+            tr.rule("std::stringstream model")
+            return X("un", "!", X("mem", o, "fail", ty=parse_type("bool")), ty=parse_type("bool"))
         # ---- shared_ptr members
         if re.match(r"std::(__shared_ptr_access|__shared_ptr|shared_ptr)<", q) and obj is not None:
             objn = self.strip_base_casts(obj[0])
@@ -713,6 +736,8 @@ static inline void verif_lock_guard_dtor(std_lock_guard_std_mutex *g) { g->m->g_
             tracked = self.is_tracked(canon)
             if canon.startswith("std::vector<") and tr.opts.get("bounded_vec"):
                 PT = Ty("ptr", to=T)
+                if m == "pop_back":
+                    return X("call", s + "_pop_back", [addr(o)], ty=Ty("builtin", name="void"))
                 if m == "erase" and len(args) == 2:
                     return X("call", s + "_erase_range", [addr(o), tr.rv(args[0]), tr.rv(args[1])], ty=PT)
                 if m == "erase" and len(args) == 1:
@@ -914,6 +939,47 @@ static inline void verif_lock_guard_dtor(std_lock_guard_std_mutex *g) { g->m->g_
                 return r if base == "operator==" else X("un", "!", r, ty=B)
         if base in ("find_if", "stable_partition", "partition") and len(args) == 3:
             return self.algorithm(base, args, ps)
+        if base == "transform" and len(args) == 4 and tr.lower(tr.ety(args[0]).noref()).kind == "ptr":
+            # std::transform(first, last, out, ::tolower / ::toupper) over characters
+            n = args[3]
+            while n.get("kind") in ("ImplicitCastExpr", "UnaryOperator") and n.get("inner"):
+                n = n["inner"][0]
+            fname = (n.get("referencedDecl") or {}).get("name")
+            if fname not in ("tolower", "toupper"):
+                raise ExtractionBreak("std::transform with operation '%s' has no model" % fname)
+            it = tr.lower(tr.ety(args[0]).noref())
+            T = tr.ctype(it.to)
+            name = "verif_transform_%s__%s" % (fname, sanitize(T))
+            self.text.setdefault("ctype_case", """
+static inline int verif_tolower(int c) { return (c >= 'A' && c <= 'Z') ? c - 'A' + 'a' : c; }
+static inline int verif_toupper(int c) { return (c >= 'a' && c <= 'z') ? c - 'a' + 'A' : c; }
+""")
+            self.text.setdefault("algo:" + name, "static %(T)s *%(n)s(%(T)s *first, %(T)s *last, %(T)s *out) { for (; first != last; ++first, ++out) *out = (%(T)s)verif_%(f)s((int)*first); return out; }\n" % dict(T=T, n=name, f=fname))
+            tr.rule("std::transform model")
+            tr.assume("std::transform / tolower / toupper", "reference model: element-wise loop; tolower/toupper as in the C locale (ASCII letters only; note: the real call passes a possibly negative char to ::tolower)")
+            return X("call", name, [tr.rv(args[0]), tr.rv(args[1]), tr.rv(args[2])], ty=it)
+        if base == "getline" and len(args) == 3 and tr.opts.get("bounded_str"):
+            a0 = self.strip_base_casts(args[0])
+            st_t = tr.ety(a0).noref()
+            if st_t.kind != "rec" or not re.match(r"std::(__cxx11::)?basic_stringstream<char", st_t.name):
+                raise ExtractionBreak("std::getline on a stream of type %s" % st_t.key())
+            sn = tr.need_record(st_t.name)
+            strn = self.ensure_vec(tr.ety(args[1]).noref().name)
+            self.text.setdefault("getline:" + sn, """
+/* std::getline(stream, item, delim) on the bounded string-stream model: fails (stream becomes false) when the stream is already at
+ * its end; otherwise extracts up to the delimiter (consumed, not stored) or the end */
+static %(sn)s *verif_getline_%(sn)s(%(sn)s *ss, %(s)s *item, char delim)
+{
+  unsigned long i;
+  item->n = 0; item->cap = ss->buf.cap;
+  if (ss->fail || ss->pos >= ss->buf.n) { ss->fail = 1; return ss; }
+  for (i = ss->pos; i < ss->buf.n; i++) { if (ss->buf.b[i] == delim) { ss->pos = i + 1; return ss; } item->b[item->n] = ss->buf.b[i]; item->n++; }
+  ss->pos = ss->buf.n;
+  return ss;
+}
+""" % dict(sn=sn, s=strn))
+            tr.rule("std::getline model")
+            return deref(X("call", "verif_getline_" + sn, [addr(tr.lv(a0)), tr.bind_ref(args[1]), tr.rv(args[2])], ty=Ty("ptr", to=st_t)))
         if base in ("remove", "find") and len(args) == 3 and tr.lower(tr.ety(args[0]).noref()).kind == "ptr":
             it = tr.lower(tr.ety(args[0]).noref())
             if it.to.kind not in ("builtin", "ptr", "enum"):
